@@ -523,17 +523,43 @@ pub fn gen(rng: &mut Rng, max_types: usize, max_procs: usize, max_depth: usize) 
                 forced_type = named_like;
             }
             // an anonymous array type written in place: `ref a: array [2] of T`
-            let anon_dims: Vec<u32> = if g.rng.chance(1, 6) { vec![1 + g.rng.below(4) as u32] } else { vec![] };
+            let mut anon_dims: Vec<u32> = if g.rng.chance(1, 6) { vec![1 + g.rng.below(4) as u32] } else { vec![] };
+            let mut ty = ty;
+            // a parameter named like an array type and written with exactly that type's shape in place:
+            // still an anonymous type of its own, not the declared one
+            if let Some(ti) = named_like {
+                if !g.p.types[ti].dims.is_empty() && g.rng.chance(1, 2) {
+                    anon_dims = g.p.types[ti].dims.clone();
+                    ty = g.p.types[ti].base.clone();
+                }
+            }
             let is_array = !g.dims_of(&ty).is_empty() || !anon_dims.is_empty();
             let is_ref = is_array || g.rng.chance(1, 3);
             vars.push(VarDef { name: vname, ty, is_ref, is_param: true, anon_dims });
         }
         for _ in 0..g.rng.below(4) {
-            let vname = local_name(g.rng, &mut local_names);
+            let mut vname = local_name(g.rng, &mut local_names);
             // a local variable's type must not be hidden by an earlier parameter/local of the same name
             let usable: Vec<usize> = (0..nt).filter(|&ti| !local_names.contains(&g.p.types[ti].name)).collect();
-            let ty = if !usable.is_empty() && g.rng.chance(1, 2) { Ty::Named(*g.rng.pick(&usable)) } else { Ty::Int };
-            let anon_dims: Vec<u32> = if g.rng.chance(1, 5) { vec![1 + g.rng.below(5) as u32] } else { vec![] };
+            let mut ty = if !usable.is_empty() && g.rng.chance(1, 2) { Ty::Named(*g.rng.pick(&usable)) } else { Ty::Int };
+            let mut anon_dims: Vec<u32> = if g.rng.chance(1, 5) { vec![1 + g.rng.below(5) as u32] } else { vec![] };
+            // a local named like an array type, written with that type's shape in place (its base type must
+            // still be visible): an anonymous type of its own
+            if nt > 0 && g.rng.chance(1, 10) {
+                let ti = g.rng.below(nt);
+                let tn = g.p.types[ti].name.clone();
+                let base_visible = match &g.p.types[ti].base {
+                    Ty::Named(b) => !local_names.contains(&g.p.types[*b].name),
+                    _ => true,
+                };
+                if !g.p.types[ti].dims.is_empty() && !local_names.contains(&tn) && base_visible {
+                    local_names.retain(|n| *n != vname);
+                    local_names.push(tn.clone());
+                    vname = tn;
+                    anon_dims = g.p.types[ti].dims.clone();
+                    ty = g.p.types[ti].base.clone();
+                }
+            }
             vars.push(VarDef { name: vname, ty, is_ref: false, is_param: false, anon_dims });
         }
         g.p.procs.push(ProcDef { name, vars, n_params, doc: None });
